@@ -10,29 +10,46 @@
 (*                     the alphabet OpSet; NEXT NextRnd = Fan randomly chosen *)
 (*                     enabled calls per state (seeded), full alphabet        *)
 EXTENDS Frame, Json, SequencesExt
-CONSTANTS MaxLen, ExportLen, DtAs, UAs, UBs, UQs, DtCs, DtBs, OpSet, OpSet2, FocusR, Fan, Seed
+CONSTANTS MaxLen, ExportLen, DtAs, UAs, UBs, UQs, DtCs, DtBs, OpSet, OpSet2, FocusR, Fan, Seed, ValSet
 
 VARIABLES cfg, st, hist, mv, hh
 vars == <<cfg, st, hist, mv, hh>>
 
+\* value classes (ValSet): "p2" powers of two - every float result is exact, T predicts the numbers;
+\* "wide" numbers that need more significant bits than the float type of their own item size holds once they are scaled
+\* or shifted (small readings for the non-dyadic scales, integers beyond the significand for the dyadic ones): every
+\* rounding step of a conversion route is visible, so two routes that round in a different order or type differ
+\* (in no particular order: a call that sorts or partitions its input in place is visible)
+WideOf(dt) == CASE SizeOf(dt) = 8 -> <<1000003, 37, 2147483629, 123456789>>
+                [] SizeOf(dt) = 4 -> <<16777219, 37, 123456789, 1000003>>
+                [] SizeOf(dt) = 2 -> <<2051, 37, 32001, 12345>>
+                [] OTHER -> <<100, 3, 127, 37>>
+InitNums(c) ==
+  IF c.vals = "wide"
+  THEN LET a == WideOf(c.dtA) b == WideOf(c.dtB) cc == WideOf(c.dtC) IN
+       [A |-> a, B |-> <<b[3], b[1]>>, Q |-> <<451>>, C |-> <<cc[3], cc[2]>>]
+  ELSE [A |-> <<1, 2, 4, 8>>, B |-> <<2, 4>>, Q |-> <<2>>, C |-> <<16, 32>>]
+RSeq(s) == [i \in DOMAIN s |-> R(s[i])]
 InitState(c) ==
+  LET iv == InitNums(c) IN
   [o \in Slots |->
-     CASE o = "A" -> Obj("A", c.dtA, UnitOf(c.uA), <<R(1), R(2), R(4), R(8)>>)
-       [] o = "V" -> Obj("A", c.dtA, UnitOf(c.uA), <<R(2), R(4)>>)
-       [] o = "B" -> Obj("A", c.dtB, UnitOf(c.uB), <<R(2), R(4)>>)
-       [] o = "Q" -> Obj("Q", "f8", UnitOf(c.uQ), <<R(2)>>)
-       [] o = "C" -> Obj("A", c.dtC, UnitOf("ta"), <<R(16), R(32)>>)
+     CASE o = "A" -> Obj("A", c.dtA, UnitOf(c.uA), RSeq(iv.A))
+       [] o = "V" -> Obj("A", c.dtA, UnitOf(c.uA), RSeq(SubSeq(iv.A, 2, 3)))
+       [] o = "B" -> Obj("A", c.dtB, UnitOf(c.uB), RSeq(iv.B))
+       [] o = "Q" -> Obj("Q", "f8", UnitOf(c.uQ), RSeq(iv.Q))
+       [] o = "C" -> Obj("A", c.dtC, UnitOf("ta"), RSeq(iv.C))
        [] o = "R" -> Dead
        [] o = "U1" -> Obj("U", "", UnitOf("lb"), <<>>)
        [] o = "U2" -> Obj("U", "", U(DimL, <<1, 8>>, RZero, "la**2/lb"), <<>>)]
 
-Configs == {[dtA |-> a, uA |-> ua, dtB |-> b, uB |-> ub, uQ |-> uq, dtC |-> dc] :
-              a \in DtAs, ua \in UAs, b \in DtBs, ub \in UBs, uq \in UQs, dc \in DtCs}
+Configs == {[dtA |-> a, uA |-> ua, dtB |-> b, uB |-> ub, uQ |-> uq, dtC |-> dc, vals |-> v] :
+              a \in DtAs, ua \in UAs, b \in DtBs, ub \in UBs, uq \in UQs, dc \in DtCs, v \in ValSet}
 
 XS == ArrSlots
 YS == ArrSlots \cup {"two"}
 Outs == {"C", "V", "R"}
-ConvTargets == {"la", "lb", "ta", "K", "oc", "bad"}
+\* (instances of the "wide" value class convert among the real scales of the default table as well)
+ConvTargets == IF "wide" \in ValSet THEN {"K", "oc", "dC", "dF", "Rk", "km", "mi", "bad"} ELSE {"la", "lb", "ta", "K", "oc", "bad"}
 EquivArgs == {<<"J", "thermal">>, <<"Hz", "spectral">>, <<"la", "nosuch">>, <<"J", "nosuch">>, <<"K", "spectral">>}
 BinFs == {"add", "sub", "mul", "div", "pow", "lt", "eq"}
 IopFs == {"add", "sub", "mul", "div", "pow"}
@@ -53,7 +70,9 @@ GArrFns == {"concatenate", "stack", "vstack", "hstack", "where", "clip", "isclos
             "interp", "allclose_units", "linspace", "select", "copyto_new"}
 \* generic in-place family: out= forms (binary / unary in the operands), forms whose target is x
 GOut2 == {"dot", "outer", "concatenate", "stack", "choose", "clip", "einsum", "m_dot", "m_clip", "uf_add", "uf_mul", "uf_outer", "uf_hypot"}
-GOut1 == {"around", "take", "m_take", "cumsum", "m_cumsum", "m_round", "sum", "m_sum", "mean", "prod", "cumprod", "max", "uf_reduce", "uf_accumulate", "uf_negative", "uf_sqrt"}
+GOrder == {"sort", "partition", "argpartition", "argsort", "m_argsort", "median", "nanmedian", "percentile", "quantile", "nanpercentile",
+           "nanquantile", "unique", "nanmax", "nansum"}
+GOut1 == {"uf_mul_reduce_k", "uf_div_reduce_k", "uf_add_reduce_k", "m_prod_k", "m_sum_k", "uf_mul_accumulate", "m_cumprod", "around", "take", "m_take", "cumsum", "m_cumsum", "m_round", "sum", "m_sum", "mean", "prod", "cumprod", "max", "uf_reduce", "uf_accumulate", "uf_negative", "uf_sqrt"}
 GOutVariants2 == {<<"choose", "oob">>, <<"uf_add", "castno">>, <<"uf_add", "where">>, <<"uf_add", "tuple2">>, <<"uf_mul", "castno">>, <<"dot", "kw">>}
 GOutVariants1 == {<<"take", "oob">>, <<"m_take", "oob">>, <<"uf_negative", "tuple2">>, <<"uf_reduce", "axis9">>, <<"cumsum", "axis9">>}
 GInX == {"setitem_oob", "setitem_fancy_oob", "setitem_fancy", "setitem_mask_bad", "setitem_slice_shape", "put_oob", "m_put", "m_put_oob", "place", "place_badmask",
@@ -87,6 +106,7 @@ Catalogue ==
   \cup {Call("gunary", f, x, "", "", "", "") : f \in GUnary, x \in GX}
   \cup {Call("garrfn", f, x, y, "", "", "") : f \in GArrFns, x \in GX, y \in GY}
   \cup {Call("gmethod", f, x, "", "", "", "") : f \in GMethods, x \in GX}
+  \cup {Call("gorder", f, x, "", "", "", "") : f \in GOrder, x \in GX}
   \cup {Call("gin", f, x, y, o, "", e) : f \in GOut2, x \in GX, y \in GX, o \in GOutTargets, e \in {"ok", "ro"}}
   \cup {Call("gin", fe[1], x, y, o, "", fe[2]) : fe \in GOutVariants2, x \in GX, y \in GX, o \in GOutTargets}
   \cup {Call("gin", f, x, "", o, "", e) : f \in GOut1, x \in GX, o \in GOutTargets, e \in {"ok", "ro"}}
@@ -130,5 +150,5 @@ NextRnd == /\ Len(hist) < MaxLen
                 /\ hh' = (hh * 31 + i) % 1000003
 Spec == Init /\ [][Next]_vars
 
-Export == Len(hist) = ExportLen => PrintT(ToJson([tag |-> "HIST", cfg |-> cfg, h |-> hist, mv |-> mv]))
+Export == Len(hist) = ExportLen => PrintT(ToJson([tag |-> "HIST", cfg |-> cfg, iv |-> InitNums(cfg), h |-> hist, mv |-> mv]))
 =============================================================================
